@@ -1141,7 +1141,9 @@ def ws_control_correspondence(ctx, out):
                 ops.append((1, 10 if op == 9 else 8, oc, k, payload, op))
             else:
                 if cur is None or not follow:
-                    size = rng.choice([1, 2, 5, 6, 30, 125, 126, 127, 300] + ([65535, 65536, 66000] if not ctx.quick and rng.random() < 0.1 else []))
+                    # frames of the third length class cost the extracted model seconds each (unary index arithmetic): a handful only
+                    big = [65535, 65536, 66000] if (not ctx.quick and ci < 12 and rng.random() < 0.5) else []
+                    size = rng.choice(big or [1, 2, 5, 6, 30, 125, 126, 127, 300])
                     cur = bytes(rng.randrange(256) for _ in range(size))
                 ops.append((0, 2, oc, k, cur, None))
         cases.append((keys, ops, follow))
